@@ -36,10 +36,8 @@ def _bad_float_text(m):
 
 
 # (finding id, predicate on (exception, message, input)) - each finding covers only the inputs of its recorded class
+# recorded exception signatures (input-aware); all three former entries were repaired in /repo (see known_findings.json `fixed`)
 KNOWN_SIGNATURES = [
-    ("KF-C15-num-literal-regex-admits-non-numerals", lambda e, m, i: isinstance(e, VISITATION) and _bad_float_text(m)),
-    ("KF-C15-hex-DATA-item-with-empty-item", lambda e, m, i: isinstance(e, AttributeError) and "literal" in m and "DATA" in i.get("src", "") and "&H" in i.get("src", "")),
-    ("KF-C15-procname-not-matched-as-header", lambda e, m, i: isinstance(e, UnboundLocalError) and "name" in m and re.search(r"[^A-Za-z0-9_]", i.get("procname", "x")) is not None),
 ]
 
 
